@@ -189,8 +189,13 @@ Vec2 RobustPath::center_position(const SubPath &subpath, const Interpolation &of
 Vec2 RobustPath::center_gradient(const SubPath &subpath, const Interpolation &offset_,
                                  double u) const {
     const double step = 1.0 / (10.0 * max_evals);
-    const double u0 = u - step < 0 ? 0 : u - step;
-    const double u1 = u + step > 1 ? 1 : u + step;
+    // Joint searches evaluate slightly outside [0, 1]: only clamp the interval inside the section
+    double u0 = u - step;
+    double u1 = u + step;
+    if (u >= 0 && u <= 1) {
+        if (u0 < 0) u0 = 0;
+        if (u1 > 1) u1 = 1;
+    }
     Vec2 result =
         (center_position(subpath, offset_, u1) - center_position(subpath, offset_, u0)) / (u1 - u0);
     return result;
@@ -210,8 +215,13 @@ Vec2 RobustPath::left_position(const SubPath &subpath, const Interpolation &offs
 Vec2 RobustPath::left_gradient(const SubPath &subpath, const Interpolation &offset_,
                                const Interpolation &width_, double u) const {
     const double step = 1.0 / (10.0 * max_evals);
-    const double u0 = u - step < 0 ? 0 : u - step;
-    const double u1 = u + step > 1 ? 1 : u + step;
+    // Joint searches evaluate slightly outside [0, 1]: only clamp the interval inside the section
+    double u0 = u - step;
+    double u1 = u + step;
+    if (u >= 0 && u <= 1) {
+        if (u0 < 0) u0 = 0;
+        if (u1 > 1) u1 = 1;
+    }
     Vec2 result = (left_position(subpath, offset_, width_, u1) -
                    left_position(subpath, offset_, width_, u0)) /
                   (u1 - u0);
@@ -232,8 +242,13 @@ Vec2 RobustPath::right_position(const SubPath &subpath, const Interpolation &off
 Vec2 RobustPath::right_gradient(const SubPath &subpath, const Interpolation &offset_,
                                 const Interpolation &width_, double u) const {
     const double step = 1.0 / (10.0 * max_evals);
-    const double u0 = u - step < 0 ? 0 : u - step;
-    const double u1 = u + step > 1 ? 1 : u + step;
+    // Joint searches evaluate slightly outside [0, 1]: only clamp the interval inside the section
+    double u0 = u - step;
+    double u1 = u + step;
+    if (u >= 0 && u <= 1) {
+        if (u0 < 0) u0 = 0;
+        if (u1 > 1) u1 = 1;
+    }
     Vec2 result = (right_position(subpath, offset_, width_, u1) -
                    right_position(subpath, offset_, width_, u0)) /
                   (u1 - u0);
